@@ -26,6 +26,9 @@ Proof. unfold flat_segs. apply flat_map_app. Qed.
 Lemma flat_segs_cons s l : flat_segs (s :: l) = flat_seg s ++ flat_segs l.
 Proof. reflexivity. Qed.
 
+Lemma concat_singletons {A} (l : list A) : concat (map (fun m => [m]) l) = l.
+Proof. induction l as [|x l IH]; cbn [map concat List.app]; [reflexivity|]. rewrite IH. reflexivity. Qed.
+
 (* a transaction of plain statements is their sequence, all at once *)
 Lemma exec_fuel1_plain d s : (match s with STxn _ => False | _ => True end) -> exec_fuel 1 d s = exec d s.
 Proof. destruct s; try reflexivity. intros []. Qed.
@@ -438,7 +441,7 @@ Proof.
   unfold r_block_connected, tr_r_block.
   destruct (ti_update (r_index (set_car_height t h)) b) as [idx|]; [|exact I].
   set (t1 := set_r_index (set_car_height t h) idx).
-  rewrite flat_segs_cons. cbn [flat_seg].
+  rewrite flat_segs_cons. cbn [flat_seg]. rewrite concat_singletons.
   pose proof (J_check_conf le (keys_of (ib_data b)) h (db_trks t1) t1 []) as H1.
   destruct (check_conf_loop le (keys_of (ib_data b)) h (db_trks t1) t1 []) as [completed t2|s t2]; cbn [bind]; [|exact I].
   destruct H1 as [D1 R1]. apply (J_seq t _ t2); [exact D1|exact R1|].
@@ -843,7 +846,7 @@ Proof. destruct us; [apply noack_nil|apply noack_delete]. Qed.
 Lemma noack_r_block le sc t b h : noack (flat_segs (tr_r_block le sc t b h)).
 Proof.
   unfold tr_r_block. destruct (ti_update _ b) as [idx|]; [|apply noack_nil].
-  rewrite flat_segs_cons. apply noack_app; [apply noack_check_conf|].
+  rewrite flat_segs_cons. cbn [flat_seg]. rewrite concat_singletons. apply noack_app; [apply noack_check_conf|].
   destruct (check_conf_loop _ _ _ _ _ _) as [completed t2|]; [|apply noack_nil].
   rewrite flat_segs_cons. apply noack_app; [apply noack_delete_opt|].
   destruct (match completed with [] => Ok tt t2 | _ => _ end) as [[] t3|]; [|apply noack_nil].
@@ -1255,7 +1258,7 @@ Proof.
   destruct (ti_update (r_index (set_car_height t h)) b) as [idx|]; [|discriminate].
   set (t1 := set_r_index (set_car_height t h) idx).
   assert (HI1 : Inv t1) by (eapply inv_frame; [|exact HI]; repeat split).
-  rewrite flat_segs_cons, stmts_of_app. cbn [flat_seg].
+  rewrite flat_segs_cons, stmts_of_app. cbn [flat_seg]. rewrite concat_singletons.
   pose proof (J_check_conf le (keys_of (ib_data b)) h (db_trks t1) t1 []) as H1.
   pose proof (check_conf_loop_pres Inv inv_wr le (keys_of (ib_data b)) h (db_trks t1) t1 [] HI1) as HI2.
   pose proof (check_conf_spec le (keys_of (ib_data b)) h (db_trks t1) t1 []) as Hspec.
